@@ -50,7 +50,28 @@ def expected_sk_Build : String :=
   "p1.SetState(core.Building);if(l1:=buildTarget(p0,p1,p2);l1!=nil){if(errors.Is(l1,errStop)){p1.SetState(core.Stopped);p0.LogBuildResult(p1,core.TargetBuildStopped,\"Buildstopped\");return};p0.LogBuildError(p1.Label,core.TargetBuildFailed,l1,\"Buildfailed:%s\",l1);p1.SetState(core.Failed);p1.FinishBuild();return};p1.FinishBuild()"
 
 def expected_sk_Run : String :=
-  "completeAction:=func{if(l6.Type!=core.BuildTask){p2.TaskDone();return};if(!l6.Target.State().IsBuilt()){p2.TaskDone();return};p2.TaskDone()};go func{range(l0){go func{p2.TaskDone()}(l9)}}();go func{range(l1){go func{defer completeAction(l13,l12);switch(l12.Type){case(core.BuildTask){build.Build(p2,l12.Target,l13)}}}(l11)}}()"
+  "completeAction:=func{if(l6.Type!=core.BuildTask){p2.TaskDone();return};if(!l6.Target.State().IsBuilt()){p2.TaskDone();return};p2.TaskDone()};go func{range(l0){go func{p2.Parses().Add(1);parse.Parse(p2,l10.Label,l10.Dependent,l10.Mode);p2.Parses().Add(-1);p2.TaskDone()}(l9)}}();go func{range(l1){go func{defer completeAction(l13,l12);switch(l12.Type){case(core.BuildTask){build.Build(p2,l12.Target,l13)}}}(l11)}}()"
+
+def expected_sk_addPendingParse : String :=
+  "atomic.AddInt64(&recv.progress.numActive,1);atomic.AddInt64(&recv.progress.numPending,1);go func{recv.pendingParses<-ParseTask{Label:p0,Dependent:p1,Mode:p2}}()"
+
+def expected_sk_LogParseResult : String :=
+  "if(p1==PackageParsed){if(l1:=recv.progress.pendingPackages.Get(l0);l1!=nil){close(l1)};if(l2:=recv.progress.packageWaits.Get(l0);l2!=nil){close(l2)};return}"
+
+def expected_sk_SyncParsePackage : String :=
+  "if(l1,l2:=recv.progress.pendingPackages.AddOrGet(p0.packageKey(),func{});!l2){waitOnChan(l1,\"StillwaitingforSyncParsePackage(%v)\",p0)};returnrecv.Graph.PackageByLabel(p0)"
+
+def expected_sk_WaitForPackage : String :=
+  "if(l2:=recv.progress.pendingPackages.Get(l1);l2!=nil){waitOnChan(l2,\"StillwaitingforpendingpackageinWaitForPackage(%v,%v,%v)\",p0,p1,p2);returnrecv.Graph.PackageByLabel(p0)};if(l3:=recv.progress.packageWaits.Get(l1);l3!=nil){waitOnChan(l3,\"StillwaitingforpackagewaitinWaitForPackage(%v,%v,%v)\",p0,p1,p2);returnrecv.Graph.PackageByLabel(p0)};recv.progress.packageWaits.Set(l1,make(chanstruct{}));returnrecv.WaitForPackage(p0,p1,p2)"
+
+def expected_sk_handleOutput : String :=
+  "if(p0.Status.IsFailure()){recv.FailedTargets[l0]=p0.Err;if(p0.Status!=core.TargetTestFailed){if(!recv.state.KeepGoing||p0.Status==core.ParseFailed){recv.state.Stop()}}}else{if(p0.Status==core.TargetBuildStopped){recv.FailedTargets[l0]=nil}}"
+
+def expected_sk_buildTarget : String :=
+  "if(p2){}else{if(!p1.IsFilegroup&&!needsBuilding(p0,p1,false)){if(!p1.BuildCouldModifyTarget()||!needsBuilding(p0,p1,true)){p1.SetState(core.Reused);p0.LogBuildResult(p1,core.TargetCached,\"Unchanged\");returnnil}};if(p1.IsFilegroup){if(l12){p1.SetState(core.Built);p0.LogBuildResult(p1,core.TargetBuilt,\"Built\")}else{p1.SetState(core.Unchanged);p0.LogBuildResult(p1,core.TargetCached,\"Unchanged\")};returnnil}};if(p2){if(l7.Cached){p1.SetState(core.ReusedRemotely);p0.LogBuildResult(p1,core.TargetBuilt,\"Reusedexistingaction\")}else{p1.SetState(core.BuiltRemotely);p0.LogBuildResult(p1,core.TargetBuilt,\"Builtremotely\")};if(p0.ShouldDownload(p1)){if(l23:=p0.EnsureDownloaded(p1);l23!=nil){returnl23}};returnnil};if(l26){p1.SetState(core.Built)}else{p1.SetState(core.Unchanged)};if(l26){p0.LogBuildResult(p1,core.TargetBuilt,\"Built\")}else{p0.LogBuildResult(p1,core.TargetBuilt,\"Built(unchanged)\")};returnnil"
+
+/-- `numPending` starts at 1 (the initial target scan), the task queues are buffered channels -/
+def expectedInitFacts : List String := ["pendingParses:make(chanParseTask,10000)", "pendingActions:make(chanTask,1000)", "numPending:1"]
 
 def expectedCasPairs : List (String × String × String) :=
   [("queueResolvedTarget", "Inactive", "Active"), ("queueResolvedTarget", "Semiactive", "Active"),
